@@ -65,7 +65,9 @@ var defaultPalette = Palette{
 
 func writeBucketsToConsole(out io.Writer, p *Palette, a *stack.Aggregated, pf pathFormat, needsEnv bool, filter, match *regexp.Regexp) error {
 	if needsEnv {
-		_, _ = io.WriteString(out, "\nTo see all goroutines, visit https://github.com/maruel/panicparse#gotraceback\n\n")
+		if _, err := io.WriteString(out, "\nTo see all goroutines, visit https://github.com/maruel/panicparse#gotraceback\n\n"); err != nil {
+			return err
+		}
 	}
 	srcLen, pkgLen := calcBucketsLengths(a, pf)
 	multi := len(a.Buckets) > 1
@@ -77,15 +79,21 @@ func writeBucketsToConsole(out io.Writer, p *Palette, a *stack.Aggregated, pf pa
 		if match != nil && !match.MatchString(header) {
 			continue
 		}
-		_, _ = io.WriteString(out, header)
-		_, _ = io.WriteString(out, p.StackLines(&e.Signature, srcLen, pkgLen, pf))
+		if _, err := io.WriteString(out, header); err != nil {
+			return err
+		}
+		if _, err := io.WriteString(out, p.StackLines(&e.Signature, srcLen, pkgLen, pf)); err != nil {
+			return err
+		}
 	}
 	return nil
 }
 
 func writeGoroutinesToConsole(out io.Writer, p *Palette, s *stack.Snapshot, pf pathFormat, needsEnv bool, filter, match *regexp.Regexp) error {
 	if needsEnv {
-		_, _ = io.WriteString(out, "\nTo see all goroutines, visit https://github.com/maruel/panicparse#gotraceback\n\n")
+		if _, err := io.WriteString(out, "\nTo see all goroutines, visit https://github.com/maruel/panicparse#gotraceback\n\n"); err != nil {
+			return err
+		}
 	}
 	srcLen, pkgLen := calcGoroutinesLengths(s, pf)
 	multi := len(s.Goroutines) > 1
@@ -97,8 +105,12 @@ func writeGoroutinesToConsole(out io.Writer, p *Palette, s *stack.Snapshot, pf p
 		if match != nil && !match.MatchString(header) {
 			continue
 		}
-		_, _ = io.WriteString(out, header)
-		_, _ = io.WriteString(out, p.StackLines(&e.Signature, srcLen, pkgLen, pf))
+		if _, err := io.WriteString(out, header); err != nil {
+			return err
+		}
+		if _, err := io.WriteString(out, p.StackLines(&e.Signature, srcLen, pkgLen, pf)); err != nil {
+			return err
+		}
 	}
 	return nil
 }
@@ -159,7 +171,7 @@ func process(in io.Reader, out io.Writer, p *Palette, s stack.Similarity, pf pat
 		c, suffix, err := stack.ScanSnapshot(in, out, opts)
 		if c != nil {
 			// Process it even if an error occurred.
-			if err1 := processInner(out, p, s, pf, html, filter, match, c, first); err == nil {
+			if err1 := processInner(out, p, s, pf, html, filter, match, c, first); err1 != nil && (err == nil || err == io.EOF) {
 				err = err1
 			}
 		}
